@@ -102,6 +102,10 @@ def decide(prop: str, vres: dict, kani: dict, tier: str, seed: int, t0: float, m
     ev = {'property_id': prop, 'tier': tier, 'seed': seed, 'level': 'proof', 'coverage': {}, 'assumptions': [],
           'wall_s': 0.0, 'violations': 0}
     undecided = []
+    if vres.get('nothing_verified'):
+        first = next((f for f in vres.get('failures', []) if f.get('class') == 'unsupported'), None)
+        undecided.append('Verus stopped before verification (no obligation was checked on this tree): %s'
+                         % ((('%s: %s' % (first.get('fn'), first.get('message', '')[:120])) if first else (vres.get('error') or 'compile error'))))
     if vres['status'] in ('extract-error', 'verus-error'):
         undecided.append('%s: %s' % (vres['status'], vres.get('error') or '; '.join(vres.get('hard_errors', [])[:3])))
     rep = vres.get('extraction', {})
@@ -265,6 +269,8 @@ def decide(prop: str, vres: dict, kani: dict, tier: str, seed: int, t0: float, m
     total = len(set(obligations))
     discharged = total - len({o for o in failed_obls})
     discharged = max(discharged, 0)
+    if vres.get('nothing_verified'):
+        discharged = 0
     ext = [e for e in rep.get('external_body', [])]
     vfn = vres.get('verus_fn', {})
     fdetail = []
